@@ -164,7 +164,7 @@ func (b *bus) recv(s *side, msg []byte) rcv {
 }
 
 func (b *bus) checkFragSize(s *side, wire []byte) {
-	if fs := s.c.FragmentSize; fs >= 18 {
+	if fs := s.c.FragmentSize; fs > 18 { // 18 and below: fragmentation is off
 		if len(wire) > fs {
 			b.stats["fragment_over_size"]++
 		} else {
